@@ -780,3 +780,51 @@ def finalize_model(facts):
             out['elements'] = [tag_of(x) for x in arr['values'].items]
             out['span'] = arr['span'][2][0] if isinstance(arr['span'], tuple) and len(arr['span']) > 2 else None
         yield name, out
+
+
+
+def keyval_model(facts):
+    """ParseState::on_keyval evaluated on a model parser state: a `key = value` / `p.key = value` line of the current section.
+    Yields (case, outcome) with outcome 'unanalysable: ..' / 'panic: ..' or {'ok', 'inserted' (tags), 'span' (of the current table afterwards)}."""
+    from .den import RecInterp, Evaluator, EvalPanic, Unanalysable, VecObj
+    I = 'toml_edit::item::Item::'
+    SOME, NONE = 'core::option::Option::Some', 'core::option::Option::None'
+    EN = 'indexmap::map::core::entry::Entry::'
+    d = 'toml_edit::parser::state::ParseState::on_keyval'
+    if not facts.has_body(d):
+        yield 'on_keyval', 'unanalysable: not found'
+        return
+    b = facts.body(d)
+
+    def T(implicit, dotted, tag, span=None):
+        return ('struct', 'toml_edit::table::Table', {'implicit': implicit, 'dotted': dotted, 'items': ('items-of-' + tag,), 'span': ('ctor', NONE) if span is None else ('ctor', SOME, (span,)),
+                                                       'decor': ('d',), 'doc_position': ('ctor', NONE), 'tag': tag})
+
+    def K(n):
+        dec = lambda: ('struct', 'toml_edit::repr::Decor', {'prefix': ('ctor', NONE), 'suffix': ('ctor', NONE)})
+        return ('struct', 'toml_edit::key::Key', {'key': n, 'leaf_decor': dec(), 'dotted_decor': dec(), 'repr': ('ctor', NONE)})
+    for npath, label in ((0, 'key = value'), (1, 'p.key = value')):
+        for child, clabel in (((True, True), 'p is a dotted-key table'), ((True, False), 'p is a header-implied table')) if npath else ((None, ''),):
+            for occ in (False, True):
+                case = label + (', ' + clabel if clabel else '') + (', key already there' if occ else ', key not there yet')
+                st = ('struct', 'toml_edit::parser::state::ParseState', {'root': T(False, False, 'root'), 'current_table': T(False, False, 'current', ('range', 10, 19)),
+                                                                       'current_table_path': VecObj([K('t')]), 'current_table_position': 4, 'current_is_array': False, 'trailing': ('ctor', NONE)})
+                entry = ('ctor', EN + ('Occupied' if occ else 'Vacant'), (('entry',),))
+                stubs = {'entry': entry, 'key': K('dup')}
+                if child is not None:
+                    stubs['or_insert_with'] = ('ctor', I + 'Table', (T(child[0], child[1], 'p'),))
+                it = RecInterp(Evaluator(facts), {'insert', 'set_prefix'}, set(), stubs=stubs)
+                it.model_mem = True
+                value = ('ctor', I + 'Table', (T(False, False, 'value', ('range', 30, 34)),))     # any item with a span of its own
+                try:
+                    r = it.apply_fn(b, [st, VecObj([K('p')][:npath]), (K('k'), value)])
+                except EvalPanic as e:
+                    yield case, f'panic: {e}'
+                    continue
+                except Unanalysable as e:
+                    yield case, f'unanalysable: {e}'
+                    continue
+                ok = isinstance(r, tuple) and r[:2] == ('ctor', 'core::result::Result::Ok')
+                ins = [a[0][2][0][2].get('tag') if isinstance(a[0], tuple) and len(a[0]) == 3 and a[0][1] == I + 'Table' else '?' for nm, a in it.calls if nm == 'insert' and a]
+                sp = st[2]['current_table'][2].get('span')
+                yield case, {'ok': ok, 'inserted': ins, 'span': sp[2][0] if isinstance(sp, tuple) and len(sp) > 2 else None, 'npath': npath, 'occ': occ, 'child': child}
